@@ -589,3 +589,9 @@ package wallet
 //@   requires sw != nil && sw.cm != nil && sw.store != nil && sw.locked != nil
 //@   ensures [atomic] called("lockUTXOs") ==> calledBefore("Lock", "UnspentSiacoinElements") && calledBefore("lockUTXOs", "Unlock")
 //@   ensures [failed] result3 != nil ==> !called("lockUTXOs")
+// what gets reserved is what the returned transactions spend: an id is put on the lock list exactly
+// when its output is added to a transaction as an input, never while candidates are only looked at
+//@   loop "range utxos"
+//@     invariant [no-lock-while-choosing] len(toLock) == loopentry(len(toLock))
+//@   loop "range inputs"
+//@     invariant [lock-per-input] len(toLock) == loopentry(len(toLock)) + rangeindex + 1 && len(txn.SiacoinInputs) == loopentry(len(txn.SiacoinInputs)) + rangeindex + 1
